@@ -173,7 +173,7 @@ RESTART_DV = [0.010, -0.020, 0.005]  # km/s, constant state change of the test e
 ES_T = [0.0, 600.0, 2400.0, 30000.0, 86400.0, 129600.0]
 ES_T_SRP = [0.0, 2400.0, 86400.0, 129600.0, 30.0 * 86400.0]
 ES_SPANS = [300.0, 3600.0]
-ES_RK45_HOUR_T = [2400.0, 86400.0]  # quick tier: an SP hour costs 0.3 s with RK45, so RK45 x one-hour span gets these T only
+ES_RK45_HOUR_T = [2400.0, 129600.0]  # quick tier: a LEO hour of SP costs 0.3 s with RK45, so RK45 x one-hour span x LEO gets these T only
 ES_CLOCK_STEP = 300.0
 ES_MODEL = "egm96.txt"
 # spacecraft platform handed to the factory: (1 + 0.21) * 25 / 500 = SAT_RATIO, the value the direct constructions use
@@ -294,16 +294,22 @@ def items(tier, seed):
         out.append(["prop", "sp_srp", "RK45", 3600.0, 31.0 * 86400.0, jd0, "sp_lean", [_orbit(i, seed) for i in ch]])
     # ---- epoch split: dynamics built by the factory at elapsed time T (one orbit per item, both integrators inside)
     es_cfgs = ["sp_g4", "sp_g2sm", "sp_srp"] + (["sp_g3all", "sp_g8"] if thorough else [])
-    pool = _sp_orbits(seed, 12)  # two orbits for each of the six (a, e)
+    # AgentConfig (the factory's input) rejects a state more than 45000 km above the surface ("RSO altitude above GEO"):
+    # the a = 60000 km orbits are outside the configuration domain; 4 low, 4 medium, 3 geosynchronous orbits remain
+    pool = [i for i in _sp_orbits(seed, 13) if AE[i // 15][0] <= 42164.0]
     for ci, cfg in enumerate(es_cfgs):
         if thorough:
-            idxs = _sp_orbits(seed, 13)
-        else:  # one low (6800 / 7500 km), one eccentric medium (12000 / 26560 km), one high (42164 / 60000 km) orbit
-            idxs = [pool[(seed + ci) % 4], pool[4 + (seed + ci + 1) % 4], pool[8 + (seed + ci + 2) % 4]]
+            idxs = pool
+        else:  # one low (6800 / 7500 km), one eccentric medium (12000 / 26560 km), one geosynchronous orbit
+            idxs = [pool[(seed + ci) % 4], pool[4 + (seed + ci + 1) % 4], pool[8 + (seed + ci + 2) % 3]]
         for i in idxs:
+            low = AE[i // 15][0] < 12000.0
             for span in ES_SPANS:
+                if span < 3600.0 and not (thorough or low):
+                    continue  # quick tier: above LEO five minutes are too short for an epoch slip to reach 100 tolerances
                 Ts = ES_T_SRP if cfg == "sp_srp" else ES_T
-                rk_T = Ts if (thorough or span < 3600.0) else [t for t in Ts if t in ES_RK45_HOUR_T]
+                # quick tier: a LEO hour of SP costs 0.3 s with RK45 (0.02-0.1 s higher up): RK45 gets two T there
+                rk_T = Ts if (thorough or span < 3600.0 or not low) else [t for t in Ts if t in ES_RK45_HOUR_T]
                 out.append(["epoch_split", cfg, span, Ts, rk_T, jd0, seed, _orbit(i, seed)])
     # ---- twins: satellites added to a running scenario with exactly the state of one that flies from the start
     j = 0
@@ -312,8 +318,7 @@ def items(tier, seed):
             for k_add in TWIN_ADD_STEPS:
                 if k_add == 0 and not (thorough or method == "RK45"):
                     continue
-                n_orb = 13 if thorough else 12
-                orbs_t = [pool[(seed + 5 * j) % 12]] if not thorough else [_sp_orbits(seed, 13)[(seed + j + q) % n_orb] for q in (0, 4, 8)]
+                orbs_t = [pool[(seed + 4 * j) % 11]] if not thorough else [pool[(seed + j + q) % 11] for q in (0, 4, 8)]
                 for i in orbs_t:
                     out.append(["epoch_twin", cfg, method, TWIN_DT, k_add, TWIN_AFTER, seed, _orbit(i, seed)])
                 j += 1
@@ -367,7 +372,8 @@ def bounds(tier, seed):
         "batch_sizes": sorted({len(it[7]) for it in props}), "sp_configs": {k: SP_CFG[k] for k in sorted({it[1] for it in props if it[1] != "twobody"})},
         "sp_start_epoch": _iso(_jd0(seed)), "epoch_shifts_s": EPOCH_SHIFTS, "restart_event_fractions": [0.37, 0.5],
         "epoch_split": {
-            "elapsed_T_s": ES_T, "elapsed_T_s_sp_srp": ES_T_SRP, "spans_s": ES_SPANS, "rk45_one_hour_T_s": "all" if tier == "thorough" else ES_RK45_HOUR_T,
+            "elapsed_T_s": ES_T, "elapsed_T_s_sp_srp": ES_T_SRP, "spans_s": ES_SPANS, "rk45_one_hour_leo_T_s": "all" if tier == "thorough" else ES_RK45_HOUR_T,
+            "span_300_s": "all orbits" if tier == "thorough" else "a < 12000 km only",
             "splits": ["(S, T)", "(S+T, 0)", "(S+T1, T-T1), T1 = 300 floor(T/600) [DOP853]", "absolute-epoch reference"],
             "configs": sorted({it[1] for it in its if it[0] == "epoch_split"}), "clock_step_s": ES_CLOCK_STEP,
             "orbits": sorted({tuple(it[7][:3]) for it in its if it[0] == "epoch_split"}),
